@@ -623,11 +623,9 @@ int reproc_stop(reproc_t *process, reproc_stop_actions stop)
   int r = -1;
 
   for (size_t i = 0; i < ARRAY_SIZE(actions); i++) {
-    r = REPROC_EINVAL; // NOLINT
-
     switch (actions[i].action) {
       case REPROC_STOP_NOOP:
-        r = 0;
+        // Keep the result of the previous action (e.g. `REPROC_ETIMEDOUT`).
         continue;
       case REPROC_STOP_WAIT:
         r = 0;
@@ -637,6 +635,9 @@ int reproc_stop(reproc_t *process, reproc_stop_actions stop)
         break;
       case REPROC_STOP_KILL:
         r = reproc_kill(process);
+        break;
+      default:
+        r = REPROC_EINVAL;
         break;
     }
 
